@@ -131,10 +131,27 @@ def jobs(tier, seed):
     for t in (0, 1, 2):
         js.append({"label": f"forward requested={t}", "wl": wl("jump_forward_diamond", t), "source": "A", "target": "E",
                    "requested": t, "limit": DEFAULT_MAX, "forward": True, "budget": {}})
+    # every loop body: all single-root/single-sink DAGs on 3..5 stages (6 in thorough), the sink jumping to the
+    # root; both declaration orders (which arm of an uneven fan-in is declared first matters to a traversal)
+    from vlib.workloads import loop_body_shapes
+
+    for n in (3, 4, 5, 6) if tier == "thorough" else (3, 4, 5):
+        shapes = loop_body_shapes(n)
+        for idx in range(len(shapes)):
+            if n == 6 and idx % 8 != seed % 8:
+                continue  # 1960 bodies: VERIF_SEED selects which eighth is explored (each exhaustively)
+            for order in ("fwd", "rev"):
+                for t, m in ((1, None), (2, 1)) if (tier == "thorough" or n < 5) else ((1, None),):
+                    limit = DEFAULT_MAX if m is None else m
+                    # quick: the 98 five-stage bodies in delivery order only (all orders for 3 and 4 stages)
+                    fifo = tier != "thorough" and n >= 5
+                    js.append({"label": f"body{n}#{idx} {order} requested={t} max={m}" + ("|in-order" if fifo else ""),
+                               "wl": wl("jump_dag_loop", n, idx, t, m, order), "source": shapes[idx][2], "fifo": fifo,
+                               "target": shapes[idx][1], "requested": t, "limit": limit, "forward": False, "budget": {}})
     if tier == "thorough":
         more = []
         for j in js:
-            if j["requested"] <= 3:
+            if j["requested"] <= 3 and not j["label"].startswith("body"):
                 more.append(dict(j, label=j["label"] + "|noack1", budget={"noack": 1}, max_states=400000))
                 more.append(dict(j, label=j["label"] + "|sweep1", budget={"sweep": 1}))
         js += more
@@ -146,8 +163,15 @@ def build(job):
     w = world()
     workload = make_workload(job["wl"])
     mon = JumpMonitor(workload, job["source"], job["target"], job["requested"], job["limit"], job["forward"])
+    flt = None
+    if job.get("fifo"):
+        def flt(st, a):
+            if not a[0].startswith("d:"):
+                return True
+            ready = [m["id"] for m in st.view.queue if m["elig"] == "ready"]
+            return a[1] == min(ready)
     return Explorer(w, workload, [mon], job.get("budget"), max_states=job.get("max_states", 200000),
-                    time_cap=job.get("time_cap", 1200))
+                    time_cap=job.get("time_cap", 1200), actions_filter=flt)
 
 
 def run_job(job):
